@@ -176,7 +176,7 @@ ALPHA = [["orx", 0, "A"], ["orx", 0, "A2"], ["orx", 0, "As"], ["orx", 1, "B"], [
 ALPHA_LITE = [o for o in ALPHA if o[0] != "aa"]
 
 
-CORE = [["orx", 0, "A"], ["orx", 0, "As"], ["crx", 0], ["otx", "T"], ["otx", "A"], ["listen", True], ["listen", False]]
+CORE = [["orx", 0, "A"], ["orx", 0, "As"], ["crx", 0], ["otx", "T"], ["otx", "A"], ["otx", "Ts"], ["listen", True], ["listen", False]]
 
 
 def _enum(depth, aws, drv="full", core=False, min_depth=1):
@@ -203,9 +203,9 @@ def strategy(drv="full"):
 def parts(tier):
     if tier == "quick":
         return [Part("enum-depth4", "enum", _enum(4, (3, 5)), exhaustive=True),
-                Part("enum-core7-depth5-6", "enum", _enum(6, (5,), core=True, min_depth=5), exhaustive=True),
+                Part("enum-core8-depth5-6", "enum", _enum(6, (5,), core=True, min_depth=5), exhaustive=True),
                 Part("generated", "gen", strategy, n=2000)]
     return [Part("enum-depth5", "enum", _enum(5, (3, 4, 5)), exhaustive=True),
             Part("enum-depth6-aw5", "enum", _enum(6, (5,)), exhaustive=True),
-            Part("enum-core7-depth7-8", "enum", _enum(8, (4,), core=True, min_depth=7), exhaustive=True),
+            Part("enum-core8-depth7", "enum", _enum(7, (4,), core=True, min_depth=7), exhaustive=True),
             Part("generated", "gen", strategy, n=100000)]
